@@ -114,6 +114,8 @@ TNext ==
               /\ SetTimezone(e.w)
               /\ LET z == ZoneOfSpelling(e.w) IN
                    Judge(e.ret = B(z.ok) /\ (z.ok => (e.name = z.name /\ e.off = z.off)), <<[k |-> "set_tz", ok |-> z.ok, name |-> z.name, off |-> z.off]>>)
+         \* set_date_rule with the language's own date patterns: not a registration or deletion of a custom rule - nothing changes
+         [] e.ev = "set_date_rule" -> UNCHANGED <<calc, sess, run, today, last>> /\ bad' = bad
          [] e.ev = "set_dec" -> SetDecimalSep(e.v) /\ bad' = bad
          [] e.ev = "set_tho" -> SetThousandSep(e.v) /\ bad' = bad
          [] e.ev = "set_num" -> SetNumberCfg([d |-> e.d, remove |-> e.remove, round |-> e.round]) /\ bad' = bad
